@@ -153,7 +153,7 @@ def run_case(case, acc, wd):
 
 
 def shard(ctx, acc):
-    total = 130 if ctx.quick else 2600
+    total = 130 if ctx.quick else 1600
     n = [0]
 
     def body(case):
